@@ -19,13 +19,14 @@ CONSTANTS MaxOps
 
 RECURSIVE OpSeqs(_)
 OpSeqs(n) == IF n = 0 THEN {<<>>} ELSE {<<o>> \o s : o \in BinOps, s \in OpSeqs(n - 1)}
-Forms == {"call", "index", "rindex", "dot", "arrow", "neg",
+Forms == {"call", "index", "rindex", "dot", "arrow", "neg", "int",
           "neg_call", "neg_index", "neg_rindex", "neg_dot", "neg_arrow", "dot_call", "index_arrow", "call_call"}
 NegPost == [neg_call |-> "call", neg_index |-> "index", neg_rindex |-> "rindex", neg_dot |-> "dot", neg_arrow |-> "arrow"]
 
 Operand(i, form) ==
     CASE form = "plain" -> Var(i)
       [] form = "neg" -> IntL(-i - 1)
+      [] form = "int" -> IntL(i + 1)
       \* a negative literal directly in front of a postfix form: the sign belongs to the literal
       [] form \in DOMAIN NegPost -> Post(NegPost[form], IntL(-i - 1))
       [] form = "dot_call" -> Post("call", Post("dot", Var(i)))
@@ -43,13 +44,15 @@ Cases ==
     \cup { <<"forms", ops, sp, f>> : ops \in OpSeqs(2), sp \in 1 .. 3, f \in Forms }
     \cup { <<"forms", ops, sp, f>> : ops \in OpSeqs(1), sp \in 1 .. 2, f \in Forms }
     \cup { <<"forms", <<>>, 1, f>> : f \in Forms }
+    \* all operands integer literals (a parser must not fold or regroup constants)
+    \cup { <<"ints", ops, 0, "int">> : ops \in UNION {OpSeqs(n) : n \in 1 .. MaxOps} }
 
 VARIABLE cs
 Init == cs \in Cases
 Next == UNCHANGED cs
 
 Ops == cs[2]
-Opnds == Operands(Len(Ops) + 1, cs[3], cs[4])
+Opnds == IF cs[1] = "ints" THEN [i \in 1 .. Len(Ops) + 1 |-> IntL(i + 1)] ELSE Operands(Len(Ops) + 1, cs[3], cs[4])
 Toks == SeqToks(Opnds, Ops)
 Result == Parse(Toks)
 
